@@ -933,5 +933,91 @@ theorem decide_shift_false (D s : F) (h0 : D = 0) (hs : s ≠ 0) : decide (D + s
 
 end Answers
 
+/-! ### refusals of `commit` / `open`; one commitment per polynomial -/
+
+section Refusals
+variable [DecidableEq F]
+
+theorem commit_degree_refused (ck : CK F) (p : MVPoly F) (hb : Option Nat) (rng : Bool)
+    (draws : List F) (h : degreeMV p > ck.supportedDegree) :
+    commit ck p hb rng draws = .error .tooManyCoefficients := by
+  unfold commit checkDegree
+  rw [if_pos h]
+
+theorem commit_unpublished_monomial (ck : CK F) (p : MVPoly F) (hb : Option Nat) (rng : Bool)
+    (draws : List F) (hd : degreeMV p ≤ ck.supportedDegree) (t : Term) (ht : t ∈ termsOf p)
+    (hm : mapGet ck.powersOfG t = none) : commit ck p hb rng draws = .error .abort := by
+  unfold commit
+  have : checkDegree ck.supportedDegree p = .ok () := (checkDegree_ok _ p).2 (by omega)
+  rw [this]
+  simp only [msmBy_missing ck.powersOfG p t ht hm]
+
+/-- under the key of a trapdoor over monomials in `nv` variables, a monomial that uses a variable
+`≥ nv` is not published -/
+theorem wfCK_unpublished (g γ : F) (β : List F) (ts : List Term) (nv s D m : Nat)
+    (hts : ∀ u ∈ ts, Term.varsBelow nv u = true) (t : Term) (q : Nat × Nat) (hq : q ∈ t)
+    (hv : nv ≤ q.1) : mapGet (wfCK g γ β ts nv s D m).powersOfG t = none := by
+  simp only [wfCK]
+  have hnot : t ∉ ts := by
+    intro hin
+    have := (varsBelow_iff nv t).1 (hts t hin) q hq
+    omega
+  clear hts
+  induction ts with
+  | nil => rfl
+  | cons a ts ih =>
+    simp only [List.map_cons, mapGet]
+    simp only [List.mem_cons, not_or] at hnot
+    rw [if_neg (fun hx => hnot.1 hx.symm)]
+    exact ih hnot.2
+
+theorem commit_missing_rng (ck : CK F) (p : MVPoly F) (hbv : Nat) (draws : List F)
+    (out : F × MVPoly F × List F) : commit ck p (some hbv) false draws ≠ .ok out := by
+  intro h
+  obtain ⟨c, r, rest⟩ := out
+  have := (commit_some ck p hbv false draws c r rest h).1
+  cases this
+
+theorem open_degree_refused (ck : CK F) (nvp nvr : Nat) (p : MVPoly F) (ps : List (MVPoly F))
+    (z : List F) (r : MVPoly F) (rs : List (MVPoly F)) (ξs : List F)
+    (h : degreeMV p > ck.supportedDegree) :
+    PST.open ck nvp nvr (p :: ps) z (r :: rs) ξs = .error .tooManyCoefficients := by
+  unfold PST.open
+  simp only [combine, checkDegree, if_pos h]
+
+theorem openCombined_index_refused (ck : CK F) (nvp nvr : Nat) (p r : MVPoly F) (z : List F)
+    (h : divideOk nvp p z = false) : openCombined ck nvp nvr p r z = .error .abort := by
+  unfold openCombined
+  simp [h]
+
+theorem commitList_lengths (ck : CK F) (phs : List (MVPoly F × Option Nat)) (rng : Bool)
+    (draws : List F) (cs : List F) (rs : List (MVPoly F)) (rest : List F)
+    (h : commitList ck phs rng draws = .ok (cs, rs, rest)) :
+    cs.length = phs.length ∧ rs.length = phs.length := by
+  induction phs generalizing draws cs rs with
+  | nil =>
+    simp only [commitList] at h
+    injection h with h
+    injection h with h1 h2
+    injection h2 with h2 h3
+    subst h1; subst h2
+    exact ⟨rfl, rfl⟩
+  | cons ph phs ih =>
+    simp only [commitList] at h
+    split at h
+    · cases h
+    · rename_i r1 hr1
+      split at h
+      · cases h
+      · rename_i rs1 hrs1
+        injection h with h
+        injection h with h1 h2
+        injection h2 with h2 h3
+        subst h1; subst h2; subst h3
+        obtain ⟨i1, i2⟩ := ih r1.2.2 rs1.1 rs1.2.1 (by rw [hrs1])
+        exact ⟨by simp [i1], by simp [i2]⟩
+
+end Refusals
+
 end PST
 end PCV
